@@ -73,3 +73,91 @@ MUTANTS = [
     dict(name="c20-load-imag-column-shift", props=["C20"], edits=[("cij/misc/evec_load.py", "float(line[26:36]) + float(line[37:47]) * 1j", "float(line[26:36]) + float(line[13:23]) * 1j")]),
     dict(name="c20-load-thz-for-cm1", props=["C20"], edits=[("cij/misc/evec_load.py", "zip((int, float, float), res.groups())", "zip((int, float, float), (res.group(1), res.group(2), res.group(2)))")]),
 ]
+
+CA = "cij/core/calculator.py"
+FM = "cij/core/full_modulus.py"
+MG = "cij/core/mode_gamma.py"
+QA = "cij/core/qha_adapter.py"
+RW = "cij/io/output/results_writer.py"
+ST = "cij/cli/static.py"
+EX = "cij/cli/extract.py"
+GE = "cij/cli/geotherm.py"
+QI = "cij/io/traditional/qha_input.py"
+ED = "cij/io/traditional/elast_dat.py"
+
+MUTANTS += [
+    # ---- C07 ------------------------------------------------------------------------------
+    dict(name="c07-reuss-4-vs-3", props=["C07"], edits=[(CA, "            + 3 * (self.s44 + self.s55 + self.s66))", "            + 4 * (self.s44 + self.s55 + self.s66))")]),
+    dict(name="c07-voigt-c13-c23-swap", props=["C07"], edits=[(CA, "                + 2 * (self.c12 + self.c23 + self.c13)) / 9", "                + 2 * (self.c12 + self.c23 + self.c23)) / 9")]),
+    dict(name="c07-upper-triangle-only", props=["C07"], edits=[(CA, "            for i, j in set(itertools.permutations(key.voigt, 2)):", "            for i, j in [key.voigt]:")]),
+    dict(name="c07-vp-without-4-3", props=["C07"], edits=[(CA, "(self.bulk_modulus_voigt_reuss_hill + 4 / 3 * self.shear_modulus_voigt_reuss_hill) * self.v_array", "(self.bulk_modulus_voigt_reuss_hill + self.shear_modulus_voigt_reuss_hill) * self.v_array")]),
+    dict(name="c07-mass-amu-not-mol", props=["C07"], edits=[(CA, "        return m * 1e-3 / N", "        return m * 1.66053906660e-27 * (1 + 1e-4)")]),
+    dict(name="c07-s-lookup-returns-c", props=["C07"], edits=[(CA, "                return self.calculator._compliances[key]", "                return self.calculator.modulus_adiabatic.get(key, self.calculator._compliances[key])")]),
+    dict(name="c07-vrh-uses-isothermal", props=["C07"], edits=[(CA, "                if res.group(3) == 't':\n                    return self.calculator.modulus_isothermal[key]\n                else:\n                    return self.calculator.modulus_adiabatic[key]", "                if res.group(3) == 's':\n                    return self.calculator.modulus_adiabatic[key]\n                else:\n                    return self.calculator.modulus_isothermal[key]")]),
+    # ---- C11 ------------------------------------------------------------------------------
+    dict(name="c11-gamma-sign", props=["C11"], edits=[(MG, "    r_array = - numpy.polyval(numpy.polyder(p, 1), ln_v_array)", "    r_array = numpy.polyval(numpy.polyder(p, 1), ln_v_array)")]),
+    dict(name="c11-first-derivative-twice", props=["C11"], edits=[(MG, "        - krogh.derivative(ln_v_array, der=2),", "        - krogh.derivative(ln_v_array, der=1),")]),
+    dict(name="c11-spline-not-flipped", props=["C11"], edits=[(MG, "        numpy.flip(numpy.log(mode_freqs), axis=0),\n        k=order,", "        numpy.log(mode_freqs),\n        k=order,")]),
+    dict(name="c11-qm-index-mix", props=["C11"], edits=[(MG, "                volume.q_points[j].modes[k]\n                for volume in qha_input.volumes\n            ])\n\n            if method == \"lagrange\"", "                volume.q_points[j].modes[np - 1 - k if j else k]\n                for volume in qha_input.volumes\n            ])\n\n            if method == \"lagrange\"")]),
+    dict(name="c11-plot-swap-again", props=["C11"], edits=[("cij/plot/modes.py", "            w_arrays = self.calculator.mode_gamma[1][:, iq, :]", "            w_arrays = self.calculator.mode_gamma[2][:, iq, :]")]),
+    dict(name="c11-pchip-no-second-derivative", props=["C11"], edits=[(MG, "        - interp(ln_v_array, nu=2, extrapolate=True),", "        - interp(ln_v_array, nu=2, extrapolate=True) * 0,")]),
+    # ---- C05 ------------------------------------------------------------------------------
+    dict(name="c05-fit-c-not-Vc", props=["C05"], edits=[(FM, "        p = numpy.polyfit(strains, self.volumes * moduli, deg = order + 1)\n        modulus_array = numpy.polyval(p, strain_array) / self.v_array", "        p = numpy.polyfit(strains, moduli, deg = order + 1)\n        modulus_array = numpy.polyval(p, strain_array)")]),
+    dict(name="c05-gamma-order-swapped", props=["C05"], edits=[(CA, "        self.mode_gamma = [vdr_dv, gamma_i, gamma_i**2]", "        self.mode_gamma = [gamma_i, vdr_dv, gamma_i**2]")]),
+    dict(name="c05-strain-axis-pairing", props=["C05"], edits=[(FM, "            strains[:,i] = (tmp[2:] - tmp[:-2]) / (tmp[2:] + tmp[:-2])", "            strains[:,(i + 1) % 3] = (tmp[2:] - tmp[:-2]) / (tmp[2:] + tmp[:-2])")]),
+    dict(name="c05-isothermal-adiabatic-swapped", props=["C05"], edits=[(CA, "        self.modulus_adiabatic = self._full_modulus.modulus_adiabatic\n        self.modulus_isothermal = self._full_modulus.modulus_isothermal", "        self.modulus_adiabatic = self._full_modulus.modulus_isothermal\n        self.modulus_isothermal = self._full_modulus.modulus_adiabatic")]),
+    dict(name="c05-nm-for-na", props=["C05"], edits=[(CA, "        self.na = self.qha_input.na", "        self.na = self.qha_input.nm")]),
+    dict(name="c05-gpa-conversion-dropped", props=["C05"], edits=[(FM, "        static_moduli = _from_gpa(static_moduli)\n", "        static_moduli = static_moduli / 14710.5\n")], why="old constant: 5e-8 relative, below tolerance; expected MISSED is acceptable"),
+    dict(name="c05-static-pressure-order-2", props=["C05"], edits=[(CA, "    def _calculate_pressure_static(self, order: int = 3):", "    def _calculate_pressure_static(self, order: int = 2):")]),
+    dict(name="c05-reference-volume-mismatch", props=["C05"], edits=[(FM, "        strain_array = calculate_eulerian_strain(self.volumes[0], self.v_array)", "        strain_array = calculate_eulerian_strain(self.volumes[-1], self.v_array)")]),
+    dict(name="c05-symmetry-not-applied", props=["C05"], edits=[(CA, "            apply_symetry_on_elast_data(self.elast_data, symmetry)", "            pass")]),
+    # ---- C06 ------------------------------------------------------------------------------
+    dict(name="c06-wrong-pressure-grid", props=["C06"], edits=[(CA, "        return v2p(func_of_t_v, self.calculator.qha_calculator.volume_base.pressures, self.p_array)", "        return v2p(func_of_t_v, self.calculator.qha_calculator.volume_base.pressures, self.p_array * 1.001)")]),
+    dict(name="c06-static-pressure-field", props=["C06"], edits=[(CA, "        return v2p(func_of_t_v, self.calculator.qha_calculator.volume_base.pressures, self.p_array)", "        return v2p(func_of_t_v, numpy.tile(self.calculator.static_p_array, (func_of_t_v.shape[0], 1)), self.p_array)")]),
+    dict(name="c06-range-check-inverted", props=["C06"], edits=[(QA, "        if self.p_tv_gpa[:, -1].min() < self.desired_pressures_gpa.max():", "        if self.p_tv_gpa[:, -1].max() < self.desired_pressures_gpa.max():")]),
+    dict(name="c06-range-check-removed", props=["C06"], edits=[(QA, "        calculator.desired_pressure_status()\n", "")]),
+    dict(name="c06-pressure-base-adiabatic-is-isothermal", props=["C06"], edits=[(CA, "        return CijPressureBaseModulusInterface(\n            self.calculator.modulus_adiabatic,", "        return CijPressureBaseModulusInterface(\n            self.calculator.modulus_isothermal,")]),
+    # ---- C12 ------------------------------------------------------------------------------
+    dict(name="c12-q2-overflow-again", props=["C12", "C01"], edits=[(NS, "        return self.Q ** 2 * numpy.exp(-self.Q) / numpy.expm1(-self.Q) ** 2", "        return self.Q ** 2 * numpy.exp(self.Q) / (numpy.exp(self.Q) - 1) ** 2")]),
+    dict(name="c12-eig-again", props=["C12"], edits=[(SH, "        return numpy.linalg.eigh(self.fictitious_strain)[1]", "        return numpy.linalg.eig(self.fictitious_strain)[1]")]),
+    dict(name="c12-akima-no-extrapolation", props=["C12", "C11"], edits=[(MG, "        numpy.exp(interp(ln_v_array, extrapolate=True)),", "        numpy.exp(interp(ln_v_array)),")]),
+    dict(name="c12-gap-T0-unmasked", props=["C12"], edits=[(NS, "        ret[numpy.where(self.t_array == 0), :] = 0\n        \n        return ret", "        return ret")]),
+    # ---- C13 ------------------------------------------------------------------------------
+    dict(name="c13-weights-unnormalised-sum", props=["C13"], edits=[(NS, "    return numpy.average(\n        numpy.average(_amount, axis=dims - 1),\n        weights=q_weights,\n        axis=dims - 2\n    )", "    return numpy.sum(\n        numpy.average(_amount, axis=dims - 1) * q_weights,\n        axis=dims - 2\n    ) / 12.0")]),
+    dict(name="c13-volume-order-check-dropped", props=["C13"], edits=[(QA, "        if not numpy.all(numpy.diff(self._volumes) <= 0):", "        if False:")]),
+    dict(name="c13-static-key-not-canonical", props=["C13"], edits=[(ED, "        return c_(res.group(1))", "        return c_(res.group(1)) if key[0] == 'c' else c_(res.group(1)[::-1][:2])")]),
+    dict(name="c13-gamma-mask-by-frequency", props=["C13", "C01"], edits=[(NS, "    clear_gamma_point(_amount)\n", "    _amount[..., 0, :3] = 0 if q_weights[0] == q_weights.min() else _amount[..., 0, :3]\n")]),
+    # ---- C14 ------------------------------------------------------------------------------
+    dict(name="c14-class-level-cache", props=["C14"], edits=[(FM, "    def get_static_modulus(self, key: C_):", "    _cache = {}\n    def get_static_modulus(self, key: C_):\n        if key in FullThermalElasticModulus._cache: return FullThermalElasticModulus._cache[key]\n        FullThermalElasticModulus._cache[key] = self._get_static_modulus(key)\n        return FullThermalElasticModulus._cache[key]\n    def _get_static_modulus(self, key: C_):")]),
+    dict(name="c14-writer-rules-mutated", props=["C14"], edits=[(RW, "        _config = self._asdict()\n        if config is not None:\n            _config.update(config)\n\n        convert = convert_unit(_config[\"unit_internal\"], _config[\"unit\"])\n\n        variable = getattr(base, self.prop)\n\n        if \"fname\" in _config:", "        _config = self._asdict()\n        if config is not None:\n            _config.update(config)\n        self.keywords.append(\"seen\")\n\n        convert = convert_unit(_config[\"unit_internal\"], _config[\"unit\"])\n\n        variable = getattr(base, self.prop)\n\n        if \"fname\" in _config:")]),
+    dict(name="c14-set-order-into-output", props=["C14"], edits=[(CA, "        for c in variables:\n            writer.write(c)\n\nclass CijPressureBaseModulusInterface:", "        for c in set(map(str, variables)):\n            writer.write(c)\n            open('order.log', 'a').write(c + '\\n')\n\nclass CijPressureBaseModulusInterface:")]),
+    dict(name="c14-cwd-constraints-first", props=["C14", "C09"], edits=[(FI, "    if not constraints.is_file() and Path(system).is_file():", "    if Path(system).is_file():")]),
+    dict(name="c14-lazy-cache-on-class", props=["C14"], edits=[(CA, "    def _process_cij(self):\n        self._full_modulus = FullThermalElasticModulus(self)", "    _shared = {}\n    def _process_cij(self):\n        self._full_modulus = Calculator._shared.setdefault(self.na, FullThermalElasticModulus(self))")]),
+    # ---- C15 ------------------------------------------------------------------------------
+    dict(name="c15-isothermal-under-adiabatic-name", props=["C15"], edits=[("cij/data/output/writer_rules.yml", "  prop: modulus_adiabatic", "  prop: modulus_isothermal")]),
+    dict(name="c15-wrong-unit-conversion", props=["C15"], edits=[(RW, "        for k, v in variable.items():", "        convert = convert_unit(_config[\"unit_internal\"], \"kbar\") if _config[\"unit\"] == \"GPa\" else convert\n        for k, v in variable.items():")]),
+    dict(name="c15-columns-in-au", props=["C15"], edits=[(CA, "        p_array = _to_gpa(self.p_array)\n", "        p_array = self.p_array\n")]),
+    dict(name="c15-alias-different-pattern", props=["C15"], edits=[("cij/data/output/writer_rules.yml", "  - vs\n  - secondary_velocities\n  fname_pattern: v_s_{base}_km_s.txt", "  - vs\n  - secondary_velocities\n  fname_pattern: v_p_{base}_km_s.txt")]),
+    dict(name="c15-fname-override-ignored", props=["C15"], edits=[(RW, "        if \"fname\" in _config:\n            fname = config[\"fname\"]\n        else:\n            fname = self.fname_pattern.format(base=base._base_name)", "        fname = self.fname_pattern.format(base=base._base_name)")]),
+    dict(name="c15-volume-labels-bohr", props=["C15"], edits=[(CA, "        v_array = _to_ang3(self.v_array)\n", "        v_array = self.v_array\n")]),
+    # ---- C17 ------------------------------------------------------------------------------
+    dict(name="c17-writer-loses-digits", props=["C17"], edits=[(QI, "                lines.append(f\"{cm_1:12.6f}\")", "                lines.append(f\"{cm_1:12.4f}\")")]),
+    dict(name="c17-reader-drops-last-q", props=["C17"], edits=[(QI, "        for weight in _read_weights(fp, qha_input_data.nq):\n            qha_input_data.weights.append(weight)", "        for weight in _read_weights(fp, qha_input_data.nq):\n            qha_input_data.weights.append(weight)\n        if qha_input_data.nq > 6: qha_input_data.weights[-1] = qha_input_data.weights[-2]")]),
+    dict(name="c17-elast-key-miskeyed", props=["C17"], edits=[(ED, 'REGEX_MODULUS = r"^\\D*(\\d+)$"', 'REGEX_MODULUS = r"^\\D*(\\d\\d)\\d*$"')]),
+    dict(name="c17-fill-cli-drops-remainder", props=["C17"], edits=[("cij/cli/fill.py", "        sys.stdout.write(fp.read())", "        sys.stdout.write(fp.read().rstrip() + \"\\n\" if False else fp.readline())")]),
+    dict(name="c17-lattice-header-consumed", props=["C17"], edits=[(ED, "            if line.strip() != \"\":\n                for _ in range(nv):\n                    line = fp.readline()", "            if line.strip() != \"\":\n                for _ in range(nv - 1):\n                    line = fp.readline()")]),
+    # ---- C18 ------------------------------------------------------------------------------
+    dict(name="c18-F-is-V-again", props=["C18"], edits=[(ST, "        _f_array = v2p1d(f_array, p_array, _p_array)", "        _f_array = v2p1d(v_array, p_array, _p_array)")]),
+    dict(name="c18-P-sign", props=["C18"], edits=[(ST, "    p_array = - numpy.gradient(f_array) / numpy.gradient(v_array)", "    p_array = numpy.gradient(f_array) / numpy.gradient(v_array)")]),
+    dict(name="c18-ev-conversion-twice", props=["C18"], edits=[(ST, "    df[\"F\"] = _to_ev(df[\"F\"].to_numpy())", "    df[\"F\"] = _to_ev(_to_ev(df[\"F\"].to_numpy()))")]),
+    dict(name="c18-vphi-uses-G", props=["C18"], edits=[(ST, "        df.loc[:, \"v_phi\"] = numpy.sqrt(df.loc[:, \"bm_VRH\"] / df.loc[:, \"density\"])", "        df.loc[:, \"v_phi\"] = numpy.sqrt(df.loc[:, \"G_VRH\"] / df.loc[:, \"density\"])")]),
+    dict(name="c18-cellmass-ignored", props=["C18"], edits=[(ST, "    if cellmass:\n        df.loc[:, \"density\"] = cellmass / df.loc[:, \"V\"]", "    if cellmass and False:\n        df.loc[:, \"density\"] = cellmass / df.loc[:, \"V\"]")]),
+    dict(name="c18-GR-coefficient", props=["C18"], edits=[(ST, "                + 3 * (s[:,4,4] + s[:,5,5] + s[:,6,6]))", "                + 4 * (s[:,4,4] + s[:,5,5] + s[:,6,6]))")]),
+    dict(name="c18-energy-fit-order-1", props=["C18"], edits=[(ST, "    f_array = fit_modulus(volumes, v_array, energies)", "    f_array = fit_modulus(volumes, v_array, energies, order=3)")]),
+    # ---- C19 ------------------------------------------------------------------------------
+    dict(name="c19-nearest-wrong-axis", props=["C19"], edits=[(EX, "        y_index = numpy.argmin(numpy.abs(df.index.to_numpy() - y))", "        y_index = min(numpy.argmin(numpy.abs(df.columns.to_numpy() - y)), len(df.index) - 1)")]),
+    dict(name="c19-nearest-floor", props=["C19"], edits=[(EX, "        y_index = numpy.argmin(numpy.abs(df.index.to_numpy() - y))", "        y_index = max(int(numpy.searchsorted(df.index.to_numpy(), y, side='right')) - 1, 0)")]),
+    dict(name="c19-geotherm-TP-transposed", props=["C19"], edits=[(GE, "        table[var] = fit_data(df)(table[p_col], table[t_col], grid=False)", "        table[var] = fit_data(df.T)(table[t_col], table[p_col], grid=False) if False else fit_data(df)(table[p_col] * 1.0, table[t_col] * 1.02, grid=False)")]),
+    dict(name="c19-geotherm-smoothing", props=["C19"], edits=[(GE, "    return RectBivariateSpline(x, y, z)", "    return RectBivariateSpline(x, y, z, s=len(x) * 1.0)")]),
+    dict(name="c19-wrong-file-glob", props=["C19"], edits=[(EX, "    df = pandas.read_table(glob(f\"{var}_tp_*\")[0]", "    df = pandas.read_table(sorted(glob(f\"{var[:2]}*_tp_*\"))[0]")]),
+]
